@@ -426,3 +426,34 @@ func Occurrences(p Path) int {
 	}
 	return 0
 }
+
+// FamilyLevels: every assignment of up to three validations to {violation, warning, info,
+// defined-but-unlisted} plus listed-but-undefined names and empty levels.
+func FamilyLevels() []Program {
+	levels := []string{"violation", "warning", "info", ""}
+	var out []Program
+	for a := 0; a < 4; a++ {
+		for b := 0; b < 4; b++ {
+			for c := -1; c < 4; c++ {
+				vs := []Validation{
+					{Name: "va", Level: levels[a], Class: 0, F: And{[]Formula{mc(0)}}},
+					{Name: "vb", Level: levels[b], Class: 0, F: And{[]Formula{Atom{Path: P(0), Kind: "maxCount", N: 0}}}},
+				}
+				if c >= 0 {
+					vs = append(vs, Validation{Name: "vc", Level: levels[c], Class: 1, F: And{[]Formula{mc(1)}}})
+				}
+				p := Program{Name: "P", Validations: vs}
+				if (a+b+c)%3 == 0 {
+					p.Undefined = []string{"warning:ghost"}
+				}
+				out = append(out, p)
+			}
+		}
+	}
+	return out
+}
+
+// MessagePool: values a placeholder may have to show.
+func MessagePool() []ast.Value {
+	return []ast.Value{str("it's 5% \"x\""), num(42), ast.Boolean(true), ast.Number("1.5")}
+}
